@@ -441,7 +441,8 @@ def r2_cross_read_state(ctx, fam, rule="C04.R2", only=None):
                 else:
                     tr = _temp_rewrite_ok(fn, attr, writes)
                     if tr is True:
-                        verdict, why = True, "temporary rewrite restored in finally"
+                        verdict, why = False, ("temporary rewrite restored in finally: safe for sequential and abandoned reads, but two overlapping reads see each "
+                                               "other's rewritten value and closing them in creation order leaves it behind")
                     elif tr is False:
                         verdict, why = False, "temporary rewrite whose restoring store is not in a finally covering the yields (an abandoned read leaves the rewritten value)"
                     else:
